@@ -447,6 +447,114 @@ func verifC21Exec(op string) string {
 		}
 		return strings.Join(segs, " | ")
 
+	case "pool":
+		// pool <osenv> <exit code> <runs n> <hooks k> (<template> <split oracle> <env>){k}
+		// k restarting hooks of ONE Pool, alive at the same time, each with its own variable values: hook A is
+		// started and exits once, then (during A's restart pause) hook B is started and exits once, …; then
+		// every hook is observed until it has run n times. The first word of every template is a literal tag
+		// (A, B, C) by which the helper's records are attributed. Runs inside a synctest bubble (fake clock
+		// for the restart pause; children are real). Each run must see exactly the values of ITS hook.
+		osenvl := verifC21ParseEnv(f[1])
+		code := verifutil.Atoi(f[2])
+		n := verifutil.Atoi(f[3])
+		k := verifutil.Atoi(f[4])
+		if len(f) != 5+3*k {
+			return "bad-op"
+		}
+		type hook struct {
+			cmdstr string
+			env    Environment
+		}
+		var hooks []hook
+		var keys []string
+		seen := map[string]bool{}
+		addKeys := func(l []verifC21KV) {
+			for _, kv := range l {
+				if !seen[kv.k] {
+					seen[kv.k] = true
+					keys = append(keys, verifutil.HexS(kv.k))
+				}
+			}
+		}
+		for j := 0; j < k; j++ {
+			cmdstr := verifC21Helper + " " + verifutil.UnHexS(f[5+3*j])
+			if o := verifC21Oracle(cmdstr, true); o != f[6+3*j] {
+				return "oracle-mismatch " + o
+			}
+			envl := verifC21ParseEnv(f[7+3*j])
+			env := Environment{}
+			for _, kv := range envl {
+				env[kv.k] = kv.v
+			}
+			addKeys(envl)
+			hooks = append(hooks, hook{cmdstr, env})
+		}
+		addKeys(osenvl)
+		hout := filepath.Join(verifC21Dir, "out")
+		os.Remove(hout) //nolint:errcheck
+		verifC21SetOSEnv(osenvl, map[string]string{
+			"VERIF_C21_HOUT": hout,
+			"VERIF_C21_KEYS": strings.Join(keys, ","),
+			"VERIF_C21_EXIT": fmt.Sprint(code),
+		})
+		reports := make([][]string, k)
+		synctest.Test(verifC21T, func(_ *testing.T) {
+			p := &Pool{}
+			p.Initialize()
+			chans := make([]chan error, k)
+			cmds := make([]*Cmd, k)
+			rep := func(j int, e error) {
+				if m := verifC21CodeRe.FindStringSubmatch(e.Error()); m != nil {
+					reports[j] = append(reports[j], "code:"+m[1])
+				} else {
+					reports[j] = append(reports[j], verifC21ClassifyErr(e))
+				}
+			}
+			for j := range hooks {
+				ch := make(chan error, 64)
+				chans[j] = ch
+				cmds[j] = &Cmd{Pool: p, Cmdstr: hooks[j].cmdstr, Restart: true, Env: hooks[j].env, OnExit: func(err error) { ch <- err }}
+				cmds[j].Start()
+				rep(j, <-ch) // first run over; the hook now sits in its restart pause while the next one starts
+			}
+			for j := range hooks {
+				for len(reports[j]) < n {
+					rep(j, <-chans[j])
+				}
+			}
+			for j := range hooks {
+				cmds[j].Close()
+			}
+			p.Close()
+		})
+		b, _ := os.ReadFile(hout)
+		recs := make([][]string, k) // per hook: "argv=… env=…" in order of appearance
+		lines := strings.Split(strings.TrimSuffix(string(b), "\n"), "\n")
+		for i := 0; i+1 < len(lines); i += 2 {
+			first := strings.SplitN(strings.TrimPrefix(lines[i], "w="), ",", 2)[0]
+			tag := verifutil.UnHexS(first)
+			if len(tag) != 1 || int(tag[0]-'A') >= k || tag[0] < 'A' {
+				return "record-without-tag " + lines[i]
+			}
+			j := int(tag[0] - 'A')
+			recs[j] = append(recs[j], fmt.Sprintf("argv=%s env=%s", lines[i], lines[i+1]))
+		}
+		var out []string
+		for j := 0; j < k; j++ {
+			var segs []string
+			ri := 0
+			for r := 0; r < n && r < len(reports[j]); r++ {
+				if strings.HasPrefix(reports[j][r], "code:") && ri < len(recs[j]) {
+					segs = append(segs, "ran "+recs[j][ri]+" report="+reports[j][r])
+					ri++
+				} else {
+					segs = append(segs, reports[j][r])
+				}
+			}
+			out = append(out, string(rune('A'+j))+"="+strings.Join(segs, " | "))
+		}
+		return strings.Join(out, " ; ")
+
 	case "hk":
 		if VerifC21Hook == nil {
 			return "hk-unavailable"
@@ -666,6 +774,40 @@ func verifC21TmplWord(r *verifutil.Rand, env, osenv []verifC21KV, hostile bool) 
 	return sb.String()
 }
 
+// pool <osenv> <code> <n> <k> (<template> <split> <env>){k}: see the op. The hooks share variable NAMES with
+// different values and have different numbers of variables.
+func verifC21GenPool(r *verifutil.Rand) string {
+	k := 2 + r.Intn(2)
+	osenv := verifC21OSEnv(r)
+	var sb strings.Builder
+	fmt.Fprintf(&sb, "pool %s %d 2 %d", verifC21FmtEnv(osenv), r.Intn(3)*5, k)
+	shared := []string{"MTX_PATH", "MTX_QUERY", "G1", "MTX_READER_ID", "MTX_SOURCE_ID", "RTSP_PORT"}
+	for j := 0; j < k; j++ {
+		var env []verifC21KV
+		used := map[string]bool{}
+		nv := 1 + r.Intn(len(shared))
+		for _, key := range shared[:nv] {
+			used[key] = true
+			env = append(env, verifC21KV{key, fmt.Sprintf("%c-%s", 'a'+j, verifC21Value(r, false))})
+		}
+		for _, kv := range verifC21Env(r, false) {
+			if !used[kv.k] && len(env) < 9 {
+				used[kv.k] = true
+				env = append(env, kv)
+			}
+		}
+		nw := r.Intn(4)
+		words := []string{string(rune('A' + j))}
+		for w := 0; w < nw; w++ {
+			words = append(words, verifC21TmplWord(r, env, osenv, false))
+		}
+		words = append(words, r.Pick("$MTX_PATH", "${MTX_QUERY}", "\"$G1\"", "$MTX_READER_ID"))
+		tmpl := strings.Join(words, " ")
+		fmt.Fprintf(&sb, " %s %s %s", verifutil.HexS(tmpl), verifC21Oracle("H "+tmpl, true), verifC21FmtEnv(env))
+	}
+	return sb.String()
+}
+
 // prg <programWord> <rest of the command> <split oracle, all words> <env> <osenv> <exit code>
 // In env values `{H}` = path of the helper executable, `{D}` = its directory (see the op).
 func verifC21GenProg(r *verifutil.Rand) string {
@@ -798,6 +940,8 @@ func verifC21Gen1(r *verifutil.Rand, i int, thorough bool) []string {
 		d = 5
 	}
 	switch {
+	case i%(100*d) == 75: // 2–3 restarting hooks of ONE pool alive at the same time
+		return []string{verifC21GenPool(r)}
 	case i%(80*d) == 25: // two overlapping hook invocations on one real path, through the real hooks package;
 		// the kinds rotate (offset by the seed-derived stream so that every pair comes up over a few seeds)
 		return []string{verifC21GenHook(r, i/(80*d)+r.Intn(len(verifC21HookPairs)))}
@@ -875,6 +1019,8 @@ func verifC21Class(op, impl string) string {
 		return "reset"
 	case "prg":
 		return "prg/" + a[0]
+	case "pool":
+		return "pool/" + f[4] + "-hooks"
 	case "rst":
 		if strings.Contains(impl, "report=code") {
 			return "rst/ran-twice"
@@ -922,6 +1068,9 @@ func TestVerifC21(t *testing.T) {
 		ID: "C21", Exec: verifC21Exec, Gen: verifC21Gen, Quick: 3200, Thorough: 80000,
 		Class: verifC21Class,
 		NonTrivial: func(op, impl string) bool {
+			if strings.HasPrefix(op, "pool ") {
+				return true
+			}
 			return op != "reset" && strings.Contains(verifutil.UnHexS(strings.Fields(op)[1]), "$")
 		},
 	})
